@@ -118,6 +118,7 @@ pub fn configs() -> Vec<(&'static str, ModelCfg)> {
         ("logic", ModelCfg { max_vars: 4, depth: 2, logic: true, piecewise: false, unbounded: false, fractional: false, strict_cmp: true, hostile: false }),
         ("mixed", ModelCfg { max_vars: 4, depth: 3, logic: true, piecewise: true, unbounded: false, fractional: false, strict_cmp: true, hostile: false }),
         ("hostile", ModelCfg { max_vars: 4, depth: 3, logic: true, piecewise: true, unbounded: true, fractional: false, strict_cmp: true, hostile: true }),
+        ("piecewise-unbounded", ModelCfg { max_vars: 3, depth: 2, logic: false, piecewise: true, unbounded: true, fractional: false, strict_cmp: false, hostile: false }),
         ("deep-piecewise", ModelCfg { max_vars: 2, depth: 4, logic: false, piecewise: true, unbounded: false, fractional: false, strict_cmp: false, hostile: false }),
     ]
 }
